@@ -24,6 +24,7 @@ type c12Case struct {
 	ReadChunk int       `json:"readChunk,omitempty"` // every read delivers at most this many bytes
 	Coalesce  bool      `json:"coalesce,omitempty"`  // the receiver starts after the sender has finished
 	PipeCap   int       `json:"pipeCap,omitempty"`
+	SendCtx   []string  `json:"sendCtx,omitempty"` // per envelope: "" (20 s deadline) | "deadline:<ms>" | "cancel:<ms>" (cancelled after that long, no deadline)
 }
 
 type c12Obs struct {
@@ -108,6 +109,20 @@ func runC12(c *c12Case) *c12Obs {
 				break
 			}
 			ctx, cancel := context.WithTimeout(context.Background(), 20*time.Second)
+			if i < len(c.SendCtx) && c.SendCtx[i] != "" {
+				cancel()
+				var ms int
+				switch {
+				case strings.HasPrefix(c.SendCtx[i], "deadline:"):
+					_, _ = fmt.Sscanf(c.SendCtx[i], "deadline:%d", &ms)
+					ctx, cancel = context.WithTimeout(context.Background(), time.Duration(ms)*time.Millisecond)
+				default:
+					_, _ = fmt.Sscanf(c.SendCtx[i], "cancel:%d", &ms)
+					ctx, cancel = context.WithCancel(context.Background())
+					tm := time.AfterFunc(time.Duration(ms)*time.Millisecond, cancel)
+					defer tm.Stop()
+				}
+			}
 			err := TSend(ctx, ts, v)
 			cancel()
 			if err != nil {
@@ -259,6 +274,30 @@ func judgeC12(c *c12Case, obs *c12Obs, o *Outcome) {
 				return
 			}
 		}
+		// the same for what was reported sent after a Send had failed (given up on its context, say): whatever the sender is
+		// told went out must come out, a failed operation does not excuse a later one that claims success
+		for i := firstBad; i < len(obs.SendErr); i++ {
+			if obs.SendErr[i] != "" {
+				continue
+			}
+			found := false
+			for _, id := range obs.RecvIDs {
+				if id == c.Stream[i].ID {
+					found = true
+				}
+			}
+			if !found {
+				o.Class("send-after-failed-send")
+				o.Fail("C12/lost-after-failed-send/"+fc, "Send of %q returned nil (after Send #%d had failed with %q) and nothing was cut, but the receiver got ids %v (receive error: %q). %s",
+					c.Stream[i].ID, firstBad, obs.SendErr[firstBad], obs.RecvIDs, obs.RecvErr, obs.WireDiff)
+				return
+			}
+		}
+	}
+	for i := range obs.SendErr {
+		if i < len(c.SendCtx) && c.SendCtx[i] != "" {
+			o.Class("send-ctx=" + strings.SplitN(c.SendCtx[i], ":", 2)[0])
+		}
 	}
 	// a cut or reset on the write path must surface as a failed Send
 	if obs.CutMid || obs.Fired["w:reset"] > 0 {
@@ -336,6 +375,16 @@ func TestC12Sweep(t *testing.T) {
 		run(&c12Case{Stream: st, WritePlan: []Fault{{Op: FCut, N: k}}})
 		run(&c12Case{Stream: st, WritePlan: []Fault{{Op: FPass}, {Op: FCut, N: k}}})
 	}
+	// a send given up half way (its context cancelled, or its deadline passed, while the receiver is not reading), then
+	// further sends once the receiver reads again: pipe smaller than a frame, the receiver's first read stalls for 7 s
+	big := c12Stream(4, 300)
+	for _, cap := range []int{16, 64, 200} {
+		for _, ctx0 := range []string{"cancel:100", "cancel:5500", "deadline:100", "deadline:3000"} {
+			run(&c12Case{Stream: big, PipeCap: cap, ReadPlan: []Fault{{Op: FStall, D: 7000}}, SendCtx: []string{ctx0}})
+			run(&c12Case{Stream: big, PipeCap: cap, ReadPlan: []Fault{{Op: FStall, D: 7000}}, SendCtx: []string{"", ctx0}})
+			run(&c12Case{Stream: big, PipeCap: cap, TLS: true, ReadPlan: []Fault{{Op: FStall, D: 7000}}, SendCtx: []string{ctx0}})
+		}
+	}
 	run(&c12Case{Stream: st, WritePlan: []Fault{{Op: FReset}}})
 	run(&c12Case{Stream: st, WritePlan: []Fault{{Op: FPass}, {Op: FPass}, {Op: FReset}}})
 	run(&c12Case{Stream: st, WritePlan: []Fault{{Op: FTimeout}, {Op: FTimeout}, {Op: FTimeout}}})
@@ -393,6 +442,20 @@ func TestC12(t *testing.T) {
 			c.ReadChunk = rapid.IntRange(1, 300).Draw(rt, "chunk")
 		}
 		c.ReadPlan = genFaults(rt, "r", false, 400)
+		if !c.Coalesce && rapid.IntRange(0, 3).Draw(rt, "abandon") == 0 {
+			// some sends are given up on their context while the receiver stalls (longer read stalls make it bite)
+			c.ReadPlan = append([]Fault{{Op: FStall, D: rapid.IntRange(1000, 9000).Draw(rt, "rstall")}}, c.ReadPlan...)
+			for i := 0; i < n; i++ {
+				switch rapid.IntRange(0, 5).Draw(rt, "sctx") {
+				case 0:
+					c.SendCtx = append(c.SendCtx, fmt.Sprintf("cancel:%d", rapid.IntRange(1, 8000).Draw(rt, "sms")))
+				case 1:
+					c.SendCtx = append(c.SendCtx, fmt.Sprintf("deadline:%d", rapid.IntRange(1, 8000).Draw(rt, "sms")))
+				default:
+					c.SendCtx = append(c.SendCtx, "")
+				}
+			}
+		}
 		if !c.TLS {
 			c.WritePlan = genFaults(rt, "w", true, 400)
 		} else if rapid.Bool().Draw(rt, "tlscut") {
